@@ -82,7 +82,7 @@ extern "C" void h_c21_announce(unsigned long nshards, unsigned long pre_cached) 
     const bool has_prev = nondet_bool("earlier_announce"); const std::uint8_t prev_ago = nondet_u8("earlier_announce_s_ago") & 15;
     if (has_prev) n->peer_announce_history_[sender_key].push_back(tp((now_s - prev_ago) * kNs));
     protocol::Manifest cached{};
-    if (pre_cached) { cached.chunk_id = chunk_n(0); cached.threshold = 1; cached.total_shares = 1; protocol::KeyShard s{}; s.index = 9; cached.shards.push_back(s); cached.expires_at = std::chrono::system_clock::time_point(std::chrono::nanoseconds((500 + 30) * kNs)); n->manifest_cache_[chunk_key] = cached; }
+    if (pre_cached) { cached.chunk_id = chunk_n(0); cached.threshold = 1; cached.total_shares = 1; protocol::KeyShard s{}; s.index = 9; cached.shards.push_back(s); cached.nonce.bytes[0] = 0xEE; cached.expires_at = std::chrono::system_clock::time_point(std::chrono::nanoseconds((500 + 30) * kNs)); n->manifest_cache_[chunk_key] = cached; }
     // the message
     protocol::AnnouncePayload a{}; a.chunk_id = chunk_n(0);
     const bool names_itself = nondet_bool("names_itself"); a.peer_id = names_itself ? peer_n(0) : peer_n(1);
@@ -96,8 +96,11 @@ extern "C" void h_c21_announce(unsigned long nshards, unsigned long pre_cached) 
     const std::uint8_t version = nondet_u8("message_version") & 7;
     g_manifest = protocol::Manifest{};
     const bool same_chunk = nondet_bool("manifest_for_this_chunk"); g_manifest.chunk_id = same_chunk ? chunk_n(0) : chunk_n(1);
-    g_manifest.threshold = nondet_u8("threshold") & 3; g_manifest.total_shares = static_cast<std::uint8_t>(nshards);
-    for (unsigned long i = 0; i < nshards; ++i) { protocol::KeyShard s{}; s.index = static_cast<std::uint8_t>(i + 1); for (std::size_t b = 0; b < 32; ++b) s.value[b] = static_cast<std::uint8_t>(0x31 + 7 * i + b); g_manifest.shards.push_back(s); }
+    // the header byte total_shares and the index of the last shard are independent of the shards carried (neither the codec nor
+    // validate_shards relates them): both symbolic
+    g_manifest.threshold = nondet_u8("threshold") & 3; g_manifest.total_shares = nondet_u8("total_shares_header") & 7;
+    const std::uint8_t last_index = nondet_u8("last_shard_index") & 15;
+    for (unsigned long i = 0; i < nshards; ++i) { protocol::KeyShard s{}; s.index = i + 1 == nshards ? last_index : static_cast<std::uint8_t>(i + 1); for (std::size_t b = 0; b < 32; ++b) s.value[b] = static_cast<std::uint8_t>(0x31 + 7 * i + b); g_manifest.shards.push_back(s); }
     const std::uint8_t life = nondet_u8("manifest_expires_in_s_minus_4") & 63;                                                      // expires in [-4, 59] s
     g_manifest.expires_at = std::chrono::system_clock::time_point(std::chrono::nanoseconds((500 - 4 + static_cast<long long>(life)) * kNs));
     g_plan_updates = g_seed_notes = g_fetches_scheduled = g_broadcasts = 0;
@@ -105,7 +108,7 @@ extern "C" void h_c21_announce(unsigned long nshards, unsigned long pre_cached) 
     n->handle_announce(a, peer_n(0), version);
     // what happened
     const auto cache_it = n->manifest_cache_.find(chunk_key);
-    const bool cache_changed = pre_cached ? !(cache_it != n->manifest_cache_.end() && cache_it->second.shards.size() == 1 && cache_it->second.shards[0].index == 9) : cache_it != n->manifest_cache_.end();
+    const bool cache_changed = pre_cached ? !(cache_it != n->manifest_cache_.end() && cache_it->second.nonce.bytes[0] == 0xEE) : cache_it != n->manifest_cache_.end();   // the pre-cached manifest is marked by its nonce
     const auto shard_rec = n->dht_.shard_record(chunk_n(0));
     const auto providers = n->dht_.find_providers(chunk_n(0));
     const bool changed = cache_changed || shard_rec.has_value() || !providers.empty() || g_plan_updates || g_seed_notes || g_fetches_scheduled || g_broadcasts;
@@ -115,7 +118,8 @@ extern "C" void h_c21_announce(unsigned long nshards, unsigned long pre_cached) 
     const bool throttle_fine = !(has_prev && prev_ago < 5);                       // one earlier admitted announce: only the minimum interval can bite
     const long long remaining = static_cast<long long>(life) - 4;
     const bool manifest_fine = has_uri && g_decodable && same_chunk && g_manifest.threshold > 0 && nshards >= g_manifest.threshold && remaining >= 2;
-    const bool assigned_fine = !assigned || (assigned_index >= 1 && assigned_index <= nshards);
+    bool carried = false; for (const auto& sh : g_manifest.shards) if (sh.index == assigned_index) carried = true;
+    const bool assigned_fine = !assigned || carried;
     const bool admissible = !locked && names_itself && pow_fine && throttle_fine && manifest_fine && assigned_fine;
     verif_assert(!changed || admissible, "C21: an ANNOUNCE changes node state only if the sender is not locked out, names itself, carries a decodable unexpired manifest for the announced chunk with enough shares including every assigned shard, valid PoW and passes the throttle");
     verif_assert(!admissible || cache_changed, "C21: an admissible ANNOUNCE is taken up (the gate is not simply closed)");
